@@ -28,6 +28,8 @@ type Exec struct {
 	dry      int
 	props    []string
 	specDepth int
+	views    map[string]PtrV // array-field views: view ref symbol -> the field they snapshot
+	curState *State
 }
 
 type effects struct {
@@ -488,9 +490,12 @@ func (ex *Exec) dryRunLoop(fr *Frame, li *loopInfo, st *State, reach Term) *effe
 	eff := &effects{heaps: map[string][]Term{}, freshSym: map[string]bool{}}
 	ex.track = eff
 	ex.dry++
+	saveNoDef := ex.vc.noDefine
+	ex.vc.noDefine = true
 	func() {
 		defer func() {
 			ex.dry--
+			ex.vc.noDefine = saveNoDef
 			ex.track = saveTrack
 			ex.vc.lines = ex.vc.lines[:saveLines]
 			ex.vc.Obls = ex.vc.Obls[:saveObls]
@@ -535,7 +540,9 @@ func (ex *Exec) noteWrite(name string, root Term) {
 // ---- blocks and instructions ----
 
 func (ex *Exec) runBlock(fr *Frame, b *ssa.BasicBlock, st *State, reach Term) {
+	ex.curState = st
 	for _, in := range b.Instrs {
+		ex.curState = st
 		ex.instr(fr, b, in, st, reach)
 	}
 }
